@@ -64,7 +64,7 @@ var reach = []struct {
 	funcs []string
 }{
 	{"p2p/client.go", []string{"client.receiveID", "client.decryptPipe", "client.decodePipe", "client.readPipe", "client.dispatch", "decodeBytes", "readFrom", "client.reportMsg", "client.reportError", "client.verifyFn"}},
-	{"p2p/server.go", []string{"server.messageDispatch", "server.receiveHandler", "server.runClient", "server.eventDispatch"}},
+	{"p2p/server.go", []string{"server.messageDispatch", "server.receiveHandler", "server.callHandler", "server.handleCallReq", "server.runClient", "server.eventDispatch"}},
 	{"p2p/discover/membership.go", []string{"serfNet.Listen", "serfNet.Lookup", "serfNet.MembersID", "serfNet.NumOfPeers", "serfNet.MembersIP"}},
 	{"share/dkg/pedersen/pdkg.go", []string{"handlePeerMsg", "handleRequest", "pdkg.Loop", "decodePubKey", "reportErr"}},
 	{"share/dkg/pedersen/pdkg_pipes.go", []string{"exchangePub", "genDistKeyGenerator", "getAndProcessDeals", "getAndProcessResponses", "genGroup"}},
@@ -95,7 +95,7 @@ var notReach = map[string]string{
 	"p2p.server.SubscribeMsg":                   "local API",
 	"p2p.server.UnSubscribeMsg":                 "local API",
 	"p2p.server.SubscribeEvent":                 "local API",
-	"p2p.server.handleCallReq":                  "outgoing dial; the peer-controlled part is receiveID",
+	"p2p.newClient":                             "builds the client around the *net.TCPConn the node's own Dial / Accept returned; no peer data",
 	"p2p.client.handShake":                      "wrapper of sendID/receiveID",
 	"p2p.client.run":                            "pipeline assembly",
 	"p2p.merge":                                 "channel plumbing (C14)",
